@@ -897,7 +897,7 @@ def r8(db, rep):
     r = rep.rule("R8", "K8", "no undischarged panic site is reachable from eval() or the public Constant operators")
     entries = ["executor::eval::eval"] + const_methods(db) + [CONST + "::zext", CONST + "::sext", CONST + "::trun"]
     panics.reach_rule(db, rep, r, entries, allow=C04_ALLOW, site_allow=C04_SITE_ALLOW,
-                      extra_discharge=nonneg_guard, floor=30)
+                      extra_discharge=nonneg_guard, floor=18)   # 30 on the pinned tree; shared helpers merge sites
 
 
 def nonneg_guard(db, body, tm, s):
